@@ -532,9 +532,22 @@ def binding_rules(ctx):
                '(interface, member); returns %s' % term_str(v)[:100])
         if not (okc and src_ok):
             continue
-        args, kw = v[3], dict(v[4])
+        args, kw = v[3], {}
+        for k_, v_ in v[4]:
+            # **{...} with constant keys is the same as the keywords
+            if k_ == '**' and kind(v_) == 'dict' and \
+                    all(is_const(a) for a, _ in v_[1]):
+                kw.update({a[1]: b for a, b in v_[1]})
+            else:
+                kw[k_] = v_
+        empty = (('tuple', ()), ('list', ()))
         ok = args == (('splice', margs),) or (
-            args == () and margs in p.state.falsy)
+            args == () and margs in p.state.falsy) or (
+                # *(args or ()): nothing when there are no arguments
+                len(args) == 1 and kind(args[0]) == 'splice' and
+                kind(args[0][1]) == 'boolop' and args[0][1][1] == 'or' and
+                args[0][1][2][0] == margs and
+                args[0][1][2][1:] in ((empty[0],), (empty[1],)))
         ctx.ob('C10.D6', fi.qualname, 'passes-decoded-arguments', ok,
                'the implementation must receive exactly the decoded '
                'arguments; receives %s' % [term_str(a)[:40] for a in args])
